@@ -544,6 +544,7 @@ func containers() *core.Family {
 			}
 			dec := cedar.NewDecoder(bytes.NewReader(buf.Bytes()))
 			k := 0
+			var decoded []*cedar.Policy
 			for {
 				var p cedar.Policy
 				err := dec.Decode(&p)
@@ -557,10 +558,20 @@ func containers() *core.Family {
 					t.Fail("Encoder-Decoder-content", buf.String(), fmt.Sprint(src), string(p.MarshalCedar()))
 					break
 				}
+				decoded = append(decoded, &p)
 				k++
 			}
 			if k != n {
 				t.Fail("Encoder-Decoder-count", buf.String(), fmt.Sprint(n), fmt.Sprint(k))
+			}
+			// the policies read earlier are still what they were once the whole stream has been read
+			for j, p := range decoded {
+				js, _ := p.MarshalJSON()
+				js0, _ := pl[j].MarshalJSON()
+				if string(p.MarshalCedar()) != src[j] || p.Effect() != pl[j].Effect() || fmt.Sprint(p.Annotations()) != fmt.Sprint(pl[j].Annotations()) || string(js) != string(js0) {
+					t.Fail("Decoder-earlier-policy-changed", buf.String(), src[j], string(p.MarshalCedar()))
+					break
+				}
 			}
 			t.Nontrivial()
 			t.Sample(fmt.Sprintf("%d policies", n))
